@@ -12,7 +12,7 @@ from pyvc.dsl import *  # noqa: F401,F403
 class_aliases = {
     "Node": "hugr.hugr.node_port.Node", "Hugr": "hugr.hugr.base.Hugr", "Op": "hugr.ops.Op", "Input": "hugr.ops.Input", "Output": "hugr.ops.Output",
     "DfParentOp": "hugr.ops.DfParentOp", "Type": "hugr.tys.Type", "OutPort": "hugr.hugr.node_port.OutPort", "DfBase": "hugr.build.dfg.DfBase",
-    "DataflowBlock": "hugr.ops.DataflowBlock", "ExitBlock": "hugr.ops.ExitBlock", "CFG_": "hugr.ops.CFG",
+    "DataflowBlock": "hugr.ops.DataflowBlock", "ExitBlock": "hugr.ops.ExitBlock", "CFG_": "hugr.ops.CFG", "Conditional_": "hugr.ops.Conditional",
 }
 extra_fields = {
     "hugr.hugr.base.Hugr._tn_op": "Seq[Op]",
@@ -524,6 +524,13 @@ class block_new_nested:
 
 
 @spec
+def prefix_kept(hg, ops0, nodes0, parents0, outs0, n0):
+    """the first n0 entries of the call trace are what they were"""
+    return forall(int, lambda j: implies(0 <= j and j < n0, same_obj(nth(hg._tn_op, j), nth(ops0, j)) and eq(nth(hg._tn_node, j), nth(nodes0, j))
+                                         and eq(nth(hg._tn_parent, j), nth(parents0, j)) and eq(nth(hg._tn_outs, j), nth(outs0, j))))
+
+
+@spec
 def case_at(self, hg, n0, j, cop, root):
     """calls n0+3j .. n0+3j+2 of the trace create case j: a Case operation with the j-th case row under the conditional's node,
     then its Input and Output; builder j of the table is the one for that node, is marked unbuilt and points back to this conditional"""
@@ -560,12 +567,15 @@ class conditional_init_impl:
         return {"builder": same_obj(self.hugr, hugr) and self.parent_node.idx == root.idx,
                 "trace": len(hugr._tn_op) == n0 + 3 * _i1 and aligned(hugr),
                 "table": len(self._case_builders) == _i1,
-                "cases_so_far": forall(int, lambda j: implies(0 <= j and j < _i1, case_at(self, hugr, n0, j, cop, root)))}
+                "cases_so_far": forall(int, lambda j: implies(0 <= j and j < _i1, case_at(self, hugr, n0, j, cop, root))),
+                "prefix_kept": prefix_kept(hugr, old(hugr._tn_op), old(hugr._tn_node), old(hugr._tn_parent), old(hugr._tn_outs), n0)}
 
     def ensures(self, hugr, root, n_cases, result):
         n0 = len(old(hugr._tn_op))
         cop = ghost("conditional_op_of", "hugr.ops.Conditional", hugr, root.idx)
-        return {"P_three_nodes_per_case": len(hugr._tn_op) == n0 + 3 * n_cases and len(self._case_builders) == n_cases,
+        return {"P_three_nodes_per_case": len(hugr._tn_op) == n0 + 3 * n_cases and len(self._case_builders) == n_cases and aligned(hugr)
+                and same_obj(self.hugr, hugr) and self.parent_node.idx == root.idx,
+                "P_earlier_calls_kept": prefix_kept(hugr, old(hugr._tn_op), old(hugr._tn_node), old(hugr._tn_parent), old(hugr._tn_outs), n0),
                 "P_case_j_is_the_j_th_child_with_its_row": forall(int, lambda j: implies(0 <= j and j < n_cases, case_at(self, hugr, n0, j, cop, root)))}
 
 
@@ -627,3 +637,32 @@ class add_cfg:
                 and result.parent_node.idx == nth(h._tn_node, n0).idx,
                 "P_the_wires_go_to_the_CFG_node_in_order": w == len(old(self._tw_node)) + 1 and len(self._tw_wires) == w
                 and nth(self._tw_node, w - 1).idx == result.parent_node.idx and eq(nth(self._tw_wires, w - 1), args)}
+
+
+# ---- Conditional.new_nested -----------------------------------------------------------------------------------
+@contract("hugr.build.cond_loop.Conditional.new_nested", props=["C01"])
+class conditional_new_nested:
+    types = {"sum_ty": "hugr.tys.Sum", "other_inputs": "Seq[Type]", "hugr": "Hugr", "parent": "Opt[Node]"}
+    returns = "hugr.build.cond_loop.Conditional"
+    fresh_result = True
+
+    def requires(cls, sum_ty, other_inputs, hugr, parent):
+        return aligned(hugr)
+
+    def modifies(cls, sum_ty, other_inputs, hugr, parent):
+        return ["hugr.hugr.base.Hugr._tn_op", "hugr.hugr.base.Hugr._tn_parent", "hugr.hugr.base.Hugr._tn_outs", "hugr.hugr.base.Hugr._tn_node",
+                "hugr.hugr.base.Hugr._nodes", "hugr.hugr.base.Hugr._free_nodes", "hugr.build.cond_loop.Case._parent_cond"]
+
+    def raises(cls, sum_ty, other_inputs, hugr, parent):
+        return {}
+
+    def ensures(cls, sum_ty, other_inputs, hugr, parent, result):
+        n0 = len(old(hugr._tn_op))
+        op = nth(hugr._tn_op, n0)
+        k = len(sum_ty.variant_rows)
+        return {"P_one_conditional_node_and_three_nodes_per_variant": len(hugr._tn_op) == n0 + 1 + 3 * k and same_obj(result.hugr, hugr) and len(result._case_builders) == k,
+                "P_a_Conditional_over_that_sum_under_the_given_parent_or_the_root": cls_is(op, Conditional_) and same_obj(as_cls(op, Conditional_).sum_ty, sum_ty)
+                and eq(as_cls(op, Conditional_).other_inputs, other_inputs)
+                and notNone(nth(hugr._tn_parent, n0)) and the(nth(hugr._tn_parent, n0)).idx == ite(isNone(parent), hugr.root, the(parent)).idx
+                and result.parent_node.idx == nth(hugr._tn_node, n0).idx,
+                "P_case_j_is_the_j_th_child_with_its_row": forall(int, lambda j: implies(0 <= j and j < k, case_at(result, hugr, n0 + 1, j, ghost("conditional_op_of", "hugr.ops.Conditional", hugr, result.parent_node.idx), result.parent_node)))}
